@@ -303,6 +303,7 @@ def run(repo, R):
                 R.ok("GATHER", f.site, f"[{tag}] own component columns on own axes")
                 R.ok("CHARGE", f.site, f"[{tag}] -q x T x 1/sqrt(prod (2a-1)!!)")
                 R.ok("SWAP", f.site, f"[{tag}] builds shell {info['X']} first")
+                R.ok("SIZE", f.site, f"[{tag}] recursion tables reach l_a + l_b (first shell, Boys orders) and l_b (second shell)")
         report(R, f, findings)
     R.floor("Vv", total, 12, "one-electron recursion stores over both orientations")
     boys_rule(repo, R)
@@ -312,6 +313,8 @@ def run(repo, R):
     R.note_function(g.qualname)
     n0 = len(R.findings)
     check_nuc_wrapper(repo, g, R, inputs_rule=True)
+    if len(R.findings) == n0:
+        R.ok("NUC", g.site, "np.sum(point_charge_integral(basis, nuclear_coords, nuclear_charges, ...), axis=2)")
     R.assumptions += ["Obara-Saika nuclear-attraction recurrences (Helgaker 9.10.26-27) and the horizontal recurrence as in DESIGN.md 2.2",
                       "the Boys function is uninterpreted apart from its arguments; scipy.special.hyp1f1 is 1F1", "assembly under C09"]
     return ("STENCIL + AXTYPE on the point-charge kernel chain for both orientations of the L_a >= L_b swap: the start value (Boys "
